@@ -32,3 +32,10 @@ class SentinelLoss(MinkowskiLoss):
         if v == self.NAN:
             return float("nan")
         return v
+
+
+class RawValueLoss(MinkowskiLoss):
+    """A signed user loss (log-likelihood style): the mean of the simulated values, which may be negative."""
+
+    def compute_loss(self, sim_data_ensemble, real_data):
+        return float(np.mean(np.asarray(sim_data_ensemble, dtype=float)))
